@@ -39,6 +39,53 @@ func runC48(c *core.Ctx) {
 				conv = call
 			}
 		}
+		// the bit conversion may be wrapped by a function of the package: it converts the parameter it is handed,
+		// answers the converted bytes, and succeeds only after ConvertBits did. convSite is where the conversion
+		// takes place in Decode, convData what it is applied to, convFrag how its result is named in facts.
+		convSite, convFrag := conv, "ConvertBits("
+		var convData ssa.Value
+		if conv != nil {
+			convData = conv.Call.Args[0]
+		} else {
+			for _, in := range core.CallsIn(fn, func(in ssa.Instruction, cc *ssa.CallCommon) bool {
+				h := cc.StaticCallee()
+				return h != nil && h.Blocks != nil && h.Pkg == fn.Pkg && h != fn
+			}) {
+				site, isCall := in.(*ssa.Call)
+				if !isCall {
+					continue
+				}
+				h := site.Call.StaticCallee()
+				isConv := func(_ ssa.Instruction, cc *ssa.CallCommon) bool {
+					d := core.CallDesc(cc)
+					return strings.HasSuffix(d.Pkg, "bech32") && d.Name == "ConvertBits"
+				}
+				inner := core.CallsIn(h, isConv)
+				if len(inner) != 1 || !succeedsOnlyAfter(h, isConv) {
+					continue
+				}
+				ic := inner[0].(*ssa.Call)
+				good := true
+				for _, hr := range core.Returns(h) {
+					if !core.NilReturn(hr, nil) {
+						continue
+					}
+					if ex, ok := core.RetOperand(hr, 0).(*ssa.Extract); !ok || ex.Tuple != ssa.Value(ic) || ex.Index != 0 {
+						good = false
+					}
+				}
+				var data ssa.Value
+				for i, p := range h.Params {
+					if ssa.Value(p) == ic.Call.Args[0] && i < len(site.Call.Args) {
+						data = site.Call.Args[i]
+					}
+				}
+				if good && data != nil {
+					conv, convSite, convData, convFrag = ic, site, data, h.Name()+"("
+					c.Analysed(fname(h))
+				}
+			}
+		}
 		if dec == nil || conv == nil {
 			c.Fail("C48/decode-rejects", "bech32PubkeyConverter.Decode", fn.Pos(), "bech32.Decode / ConvertBits not found")
 		} else {
@@ -46,7 +93,7 @@ func runC48(c *core.Ctx) {
 			for _, nm := range []struct {
 				name string
 				call *ssa.Call
-			}{{"bech32-decode-checked", dec}, {"convert-bits-checked", conv}} {
+			}{{"bech32-decode-checked", dec}, {"convert-bits-checked", convSite}} {
 				call := nm.call
 				mustPassChecked(c, fn, "C48/decode-rejects", "bech32PubkeyConverter.Decode/"+nm.name, nil,
 					func(in ssa.Instruction, _ *ssa.CallCommon) bool { return in == ssa.Instruction(call) }, core.NilReturn, nil, "succeeds (error checked) before bytes are returned")
@@ -63,12 +110,12 @@ func runC48(c *core.Ctx) {
 					if f.Op == "==" && strings.Contains(f.String(), "bech32Config.prefix") && strings.Contains(f.String(), "Decode(p1)#0") {
 						p = true
 					}
-					if f.Op == "==" && strings.Contains(f.String(), "recv.len") && strings.Contains(f.String(), "len(") && strings.Contains(f.String(), "ConvertBits(") {
+					if f.Op == "==" && strings.Contains(f.String(), "recv.len") && strings.Contains(f.String(), "len(") && strings.Contains(f.String(), convFrag) {
 						l = true
 					}
 				}
 				prefixOK, lenOK = prefixOK && p, lenOK && l
-				if ex, ok := core.RetOperand(r, 0).(*ssa.Extract); !ok || ex.Tuple != ssa.Value(conv) || ex.Index != 0 {
+				if ex, ok := core.RetOperand(r, 0).(*ssa.Extract); !ok || ex.Tuple != ssa.Value(convSite) || ex.Index != 0 {
 					resOK = false
 				}
 			}
@@ -76,7 +123,7 @@ func runC48(c *core.Ctx) {
 			a1, a2 := core.ExprKey(conv.Call.Args[1]), core.ExprKey(conv.Call.Args[2])
 			dirOK = strings.HasSuffix(a1, "toBits") && strings.HasSuffix(a2, "fromBits")
 			dataOK := false
-			if ex, ok := conv.Call.Args[0].(*ssa.Extract); ok && ex.Tuple == ssa.Value(dec) && ex.Index == 1 {
+			if ex, ok := convData.(*ssa.Extract); ok && ex.Tuple == ssa.Value(dec) && ex.Index == 1 {
 				dataOK = true
 			}
 			c.Check(prefixOK && n > 0, "C48/decode-rejects", "bech32PubkeyConverter.Decode/prefix", fn.Pos(), "bytes only when the decoded prefix equals the configured prefix", "text with another prefix is not rejected")
